@@ -17,6 +17,22 @@ Proof. unfold fresh_rid. intros H. injection H as <- <-. cbn. auto 10. Qed.
 
 
 (* ------------------------------------------------------------------ revocation primitives and the family predicates *)
+Lemma with_mode_fst m res : fst (with_mode m res) = fst res.
+Proof. unfold with_mode. destruct (String.eqb (o_err (snd res)) "" && negb (String.eqb (reported_mode m) "")); reflexivity. Qed.
+Lemma with_mode_err m res : o_err (snd (with_mode m res)) = o_err (snd res).
+Proof.
+  unfold with_mode. destruct (String.eqb (o_err (snd res)) "") eqn:E; cbn [andb]; [|reflexivity].
+  destruct (negb (String.eqb (reported_mode m) "")); [|reflexivity]. cbn. apply String.eqb_eq in E. now rewrite E.
+Qed.
+Lemma with_mode_minted m res : o_minted (snd (with_mode m res)) = o_minted (snd res).
+Proof. unfold with_mode. destruct (String.eqb (o_err (snd res)) "" && negb (String.eqb (reported_mode m) "")); reflexivity. Qed.
+Lemma authorize_par_fst cfg s cp uri a : fst (authorize_par cfg s cp uri a) = fst (authorize_par0 cfg s cp uri a).
+Proof. unfold authorize_par. destruct (key_of s uri) as [k|]; [|reflexivity]. destruct (par (st s) k); [apply with_mode_fst|reflexivity]. Qed.
+Lemma authorize_par_err cfg s cp uri a : o_err (snd (authorize_par cfg s cp uri a)) = o_err (snd (authorize_par0 cfg s cp uri a)).
+Proof. unfold authorize_par. destruct (key_of s uri) as [k|]; [|reflexivity]. destruct (par (st s) k); [apply with_mode_err|reflexivity]. Qed.
+Lemma authorize_par_minted cfg s cp uri a : o_minted (snd (authorize_par cfg s cp uri a)) = o_minted (snd (authorize_par0 cfg s cp uri a)).
+Proof. unfold authorize_par. destruct (key_of s uri) as [k|]; [|reflexivity]. destruct (par (st s) k); [apply with_mode_minted|reflexivity]. Qed.
+
 Lemma revoke_access_no_access s X : Inv s -> no_access_rid (revoke_access (st s) X) X.
 Proof. intros _ k r H Heq. unfold revoke_access in H. cbn in H. apply drop_rid_some in H as [_ Hn]. contradiction. Qed.
 
@@ -373,7 +389,7 @@ Qed.
 
 Lemma Inv_authorize_par cfg s cp uri a : Inv s -> Inv (fst (authorize_par cfg s cp uri a)).
 Proof.
-  intros I. unfold authorize_par.
+  intros I. rewrite authorize_par_fst. unfold authorize_par0.
   destruct (key_of s uri) as [k|]; [|assumption].
   destruct (par (st s) k) as [pr|]; [|assumption].
   pose proof (Inv_set_par s (upd (par (st s)) k None) I) as I1.
